@@ -336,6 +336,18 @@ func indexSafe(fs *Facts, in ssa.Instruction) (string, bool) {
 				}
 			}
 		}
+		// S14: the index is what a function of the package answered for this very slice, and every
+		// return of that function is a negative constant ("none") or a position it proved to lie inside
+		// its parameter (0 <= j < len(param)); the caller has excluded the negative answers
+		if c, ok := stripInt(I).(*ssa.Call); ok && lo >= 0 {
+			if g := staticCallee(c); g != nil && g.Blocks != nil && g.Signature.Results().Len() == 1 {
+				for k, a := range c.Call.Args {
+					if strip(a) == strip(X) && k < len(g.Params) && returnsPositionIn(fs, g, k) {
+						return "S14: the index is a position " + g.Name() + " found in this slice (every non-negative answer of it lies inside its argument), guarded against the negative answer", true
+					}
+				}
+			}
+		}
 		return fmt.Sprintf("index in [%s,%s], length at least %d", b64(lo), b64(hi), minLen), false
 	case *ssa.Slice:
 		minLen, _ := lenOf(x.X)
@@ -1289,4 +1301,43 @@ func ruleExplicitPanics(w *World, r *Report, pkg *ssa.Package, tag string) {
 	if n == 0 {
 		r.Ok(rule, tag+":no-panic-on-error", "-", "no explicit panic(err) in the package")
 	}
+}
+
+
+// returnsPositionIn: every return of g is a negative constant or a value v with 0 <= v < len(g.Params[k])
+// under g's own guard facts.
+func returnsPositionIn(fs *Facts, g *ssa.Function, k int) bool {
+	gf := NewFacts(g, fs.enums)
+	rets := returnsOf(g)
+	if len(rets) == 0 {
+		return false
+	}
+	for _, ret := range rets {
+		if len(ret.Results) != 1 {
+			return false
+		}
+		if c, ok := constInt(ret.Results[0]); ok {
+			if c < 0 {
+				continue
+			}
+			return false
+		}
+		st, reach := gf.At(ret.Block())
+		if !reach {
+			continue
+		}
+		lo, _, ok := gf.bounds(ret.Results[0], ret.Block())
+		if !ok || lo < 0 {
+			return false
+		}
+		t, off, isC, ok := termOf(ret.Results[0])
+		if !ok || isC || !st.noWrap(t, off) {
+			return false
+		}
+		d := st.diffHi(t, term{v: strip(g.Params[k]), isLen: true})
+		if d == math.MaxInt64 || sat(d, off) > -1 {
+			return false
+		}
+	}
+	return true
 }
